@@ -93,10 +93,18 @@ Fixpoint rdbe_acc (k : nat) (acc : N) (b : bytes) : option (N * bytes) :=
 Definition rdbe (k : nat) : reader N := rdbe_acc k 0.
 Definition rd8 : reader N := fun b => match b with x :: r => Some (x, r) | [] => None end.
 
-(* Reader::read(ptr, size): exactly [n] bytes or EOF error.  The comparison with the
-   remaining length comes first so that N.to_nat is only applied to small numbers. *)
-Definition take (n : N) : reader bytes :=
-  fun b => if len b <? n then None else Some (firstn (N.to_nat n) b, skipn (N.to_nat n) b).
+(* Reader::read(ptr, size): exactly [n] bytes or EOF error.  Recursion on the input, so the
+   cost is n steps and a huge (corrupted) n simply runs out of input; CodecProofs.take_spec:
+   take n b = if len b <? n then None else Some (firstn n b, skipn n b). *)
+Fixpoint take (n : N) (b : bytes) {struct b} : option (bytes * bytes) :=
+  if n =? 0 then Some ([], b)
+  else match b with
+       | [] => None
+       | x :: r => match take (N.pred n) r with
+                   | Some (d, r') => Some (x :: d, r')
+                   | None => None
+                   end
+       end.
 
 (* check_type(expected) *)
 Definition check_type (expected : N) : reader unit :=
